@@ -36,6 +36,12 @@ type AtClause struct {
 	After  bool   // evaluated after the call returned (`after call ...`); `result`, `result0`... name the results
 }
 
+// RecvGhost is a ghost update attached to the receives from one channel expression.
+type RecvGhost struct {
+	Chan, Name string
+	Clause     *Clause
+}
+
 type GhostDecl struct {
 	Name string
 	Type string
@@ -43,29 +49,30 @@ type GhostDecl struct {
 }
 
 type FuncContract struct {
-	PkgPath  string
-	Key      string // "Name", "(*T).Name", "(T).Name", with "$n" suffixes for function literals
-	Requires []*Clause
-	Ensures  []*Clause
-	Modifies []*Clause
-	Loops    map[int]*LoopContract
-	Ats      []*AtClause
-	Ghosts   []*GhostDecl
-	Trusted  bool // body not verified, contract assumed (reported)
-	Pure     bool // no heap writes, result is a function of the arguments and the heap
-	NoPanic  bool // callbacks may panic; the function must not propagate a panic
-	Abstract bool // interface method contract
-	Props    []string
-	Replay   map[string]string // label -> template spec
-	File     string
-	Line     int
-	Recvs    map[string]*Clause // channel text -> assumed invariant of received values (trusted)
-	Uses     map[string]bool    // when non-nil: only the postconditions of these callees are assumed (others: results and write sets only)
-	MaxPaths int                // live symbolic paths kept apart before joining (default 4)
-	Bounded  string             // non-empty: obligations of this function are bounded stand-ins (text = bound)
-	Skip     map[string]bool    // kinds of implicit obligations not generated (reported)
-	Notes    []string
-	UsedBy   map[string]bool
+	PkgPath    string
+	Key        string // "Name", "(*T).Name", "(T).Name", with "$n" suffixes for function literals
+	Requires   []*Clause
+	Ensures    []*Clause
+	Modifies   []*Clause
+	Loops      map[int]*LoopContract
+	Ats        []*AtClause
+	Ghosts     []*GhostDecl
+	Trusted    bool // body not verified, contract assumed (reported)
+	Pure       bool // no heap writes, result is a function of the arguments and the heap
+	NoPanic    bool // callbacks may panic; the function must not propagate a panic
+	Abstract   bool // interface method contract
+	Props      []string
+	Replay     map[string]string // label -> template spec
+	File       string
+	Line       int
+	RecvGhosts []RecvGhost
+	Recvs      map[string]*Clause // channel text -> assumed invariant of received values (trusted)
+	Uses       map[string]bool    // when non-nil: only the postconditions of these callees are assumed (others: results and write sets only)
+	MaxPaths   int                // live symbolic paths kept apart before joining (default 4)
+	Bounded    string             // non-empty: obligations of this function are bounded stand-ins (text = bound)
+	Skip       map[string]bool    // kinds of implicit obligations not generated (reported)
+	Notes      []string
+	UsedBy     map[string]bool
 }
 
 type SpecFunc struct {
@@ -363,6 +370,19 @@ func (cs *ContractSet) ParseContractFile(pkgPath, filename string, f *ast.File, 
 				}
 			case "recv":
 				// recv <channel expression>: assume <expr over `value`>  — a (trusted) channel invariant used at receives
+				if g := strings.Index(rest, ": ghost "); g >= 0 {
+					// recv <channel expression>: ghost name = expr   — ghost update performed at every receive from it
+					parts := strings.SplitN(rest[g+len(": ghost "):], "=", 2)
+					if len(parts) != 2 {
+						return fmt.Errorf("%s:%d: bad recv ghost clause", filename, l.line)
+					}
+					cl, err := mk(strings.TrimSpace(parts[1]))
+					if err != nil {
+						return fmt.Errorf("%s:%d: %v", filename, l.line, err)
+					}
+					cur.RecvGhosts = append(cur.RecvGhosts, RecvGhost{Chan: strings.TrimSpace(rest[:g]), Name: strings.TrimSpace(parts[0]), Clause: cl})
+					break
+				}
 				k := strings.Index(rest, ": assume ")
 				if k < 0 {
 					return fmt.Errorf("%s:%d: bad recv clause", filename, l.line)
